@@ -178,7 +178,11 @@ func (c12) Exec(d any) mon.Result {
 	if dec.Width() != c.W || dec.Height() != c.H || dec.Components() != c.C || dec.BitDepth() != c.P || dec.IsSigned() != c.Signed {
 		return mon.Violation("geometry", fmt.Sprintf("decoder reports %dx%d c=%d P=%d signed=%v", dec.Width(), dec.Height(), dec.Components(), dec.BitDepth(), dec.IsSigned()))
 	}
-	out := dec.GetPixelData()
+	out := append([]byte(nil), dec.GetPixelData()...)
+	// the decoded image is what the Decoder hands out on every read, not only on the first
+	if again := dec.GetPixelData(); firstDiff(again, out) >= 0 || len(again) != len(out) {
+		return mon.Violation("reread-differs", fmt.Sprintf("a second GetPixelData() on the same Decoder differs from the first at byte %d (len %d vs %d)", firstDiff(again, out), len(again), len(out)))
+	}
 	if len(out) != len(px) {
 		return mon.Violation("length", fmt.Sprintf("decoded %d bytes, expected %d", len(out), len(px)))
 	}
